@@ -107,6 +107,30 @@ func VerifHarness_C17_M2_verify_sound() {
 	}
 }
 
+// M2b: a degenerate root. No proof of any shape verifies against a nil or empty root hash, for
+// any index and total (a part-set header without a hash must not make every part acceptable).
+func VerifHarness_C17_M2_degenerate_root() {
+	total := vNondetLen("total", 1, vParam("T", 3))
+	idx := vNondetInt("idx")
+	leafHash := hash.DoHash(vNondetBytes("cand", 1))
+	n := vNondetLen("aunts", 0, vParam("A", 3))
+	sp := merkle.SimpleProof{Aunts: make([][]byte, n)}
+	for i := range sp.Aunts {
+		sp.Aunts[i] = vNondetBytes("aunt", 20)
+	}
+	var root []byte
+	if vNondetBool("empty-not-nil") {
+		root = []byte{}
+	}
+	vAssert(!sp.Verify(idx, total, leafHash, root), "M2b-nothing-verifies-against-an-empty-root")
+	// the same through the part set: a header without hash accepts nothing
+	ps := NewPartSetFromHeader(PartSetHeader{Total: total, Hash: root})
+	cand := &Part{Index: idx, Bytes: vNondetBytes("cand2", 1), Proof: sp}
+	added, _ := ps.AddPart(cand, true)
+	vAssert(!added && ps.count == 0 && !ps.IsComplete(), "M2b-header-without-hash-accepts-no-part")
+	vReach("degenerate-root-checked")
+}
+
 func vC17Snapshot(ps *PartSet) (int, []*Part, []uint64) {
 	ps2 := make([]*Part, len(ps.parts))
 	copy(ps2, ps.parts)
